@@ -42,7 +42,7 @@ theorem accept_implies_inWindow {σ : Type} (H : Bytes → Bytes) (cfg : Config)
     ∃ a, authOf H cfg req = .ok a ∧ inWindow a.timestamp cfg.now := by
   obtain ⟨a, ha⟩ := authOf_ok_of_validate P s (Or.inl ⟨r, h⟩)
   refine ⟨a, ha, ?_⟩
-  obtain ⟨_, _, _, _, hok⟩ := validate_of_authOf_ok P s ha
+  obtain ⟨_, _, _, _, hok⟩ := c04_validate_of_authOf_ok P s ha
   obtain ⟨resp, hresp⟩ := hok r h
   exact inWindow_of_prevalidate_ok a cfg.region cfg.service cfg.now hr
     (prevalidate_ok_of_validateSignature H P s a cfg.region cfg.service cfg.now (Or.inl ⟨resp, hresp⟩))
@@ -54,7 +54,7 @@ theorem outside_window_no_key_lookup {σ : Type} (H : Bytes → Bytes) (cfg : Co
     (ha : authOf H cfg req = .ok a) (h : ¬ inWindow a.timestamp cfg.now) :
     (validate H cfg P s req).out = .err .SignatureDoesNotMatch ∧ (validate H cfg P s req).calls = [] ∧
     (validate H cfg P s req).state = s := by
-  obtain ⟨hc, hs, he, _, _⟩ := validate_of_authOf_ok P s ha
+  obtain ⟨hc, hs, he, _, _⟩ := c04_validate_of_authOf_ok P s ha
   have hv := validateSignature_of_prevalidate_err H P s a cfg.region cfg.service cfg.now _
     (prevalidate_err_of_not_inWindow a cfg.region cfg.service cfg.now hr h)
   rw [hv] at hc hs he
